@@ -19,7 +19,7 @@ from vlib.runner import HarnessError, Mismatch, drive
 PROP = "C16"
 LEVEL = "exploration"
 WORKERS = {"quick": 4, "thorough": 16}
-BUDGET = {"quick": 60, "thorough": 600}
+BUDGET = {"quick": 100, "thorough": 600}
 RULE = (
     "Cases: (a) round trips: projects of 0-12 jobs (mostly 0-5) over textually colliding universes "
     "(values 1/10/100/1.0/'1'/True/'True'/'a b'/'a.b'/'x/y'/'../up'/''/None..., keys a/ab/a_b/b/n.x/job, "
